@@ -118,7 +118,10 @@ def _canon(obj, h, numeric):
     if isinstance(obj, np.ndarray):
         h.update(f"<A{obj.dtype.kind}{obj.shape}>".encode())
         if numeric:
-            h.update(np.ascontiguousarray(obj).tobytes())
+            if obj.dtype.kind in "OUSV":  # object arrays: bytes would be pointers
+                h.update(repr(obj.tolist()).encode())
+            else:
+                h.update(np.ascontiguousarray(obj).tobytes())
     elif isinstance(obj, dict):
         for k in obj:
             h.update(f"<K{k}>".encode())
